@@ -208,7 +208,7 @@ def extended_format_ternary_op(
         ):
             arg2 = get_instruction_arg(stack_inst2, stack_inst2.argrepr)
             k = skip_cache(instructions, j + 1)
-            stack_inst3 = instructions[k + 1]
+            stack_inst3 = instructions[k]
             start_offset = stack_inst3.start_offset
             if (
                 stack_inst3.opcode in opc.operator_set
